@@ -123,7 +123,7 @@ var plans = map[string]Plan{
 // counters that a thorough run must have hit at least once.
 var requiredReach = map[string][]string{
 	"C05": {"F1_cancel_running", "F2_timeout_mid_search", "F3_stall", "F3_setup_stall", "stop_in_iteration_1", "excluded_root", "ponder_reported", "pv_lines_checked", "position_checks", "timer_alive_at_next_go"},
-	"C07": {"terminal_distinct_checked", "F1_cancel_running"},
+	"C07": {"terminal_distinct_checked", "F1_cancel_running", "terminal_root_checks"},
 	"C11": {"F12_index_collision", "F12_age", "F12_resize", "F12_clear", "collision_deeper", "collision_shallower", "collision_equal_fresh", "collision_equal_aged", "hit_checked", "put_update"},
 	"C12": {"F1_cancel_running", "F2_timeout_mid_search", "F4_burst", "F4_go_within_5ms_of_result", "F5_ponderhit_running", "stop_in_iteration_1", "stop_in_busy_wait", "ponderhit_after_internal_completion", "timer_alive_at_next_go", "isready_mid_search", "newgame_vs_fresh_compared", "setoption_audits", "position_checks", "readyok"},
 	"C13": {"F2_timeout_mid_search", "movetime_expired", "time_control_refill", "first_search_after_book", "book_move_played", "observed_samples", "allotted_samples", "depth_samples", "searchmoves_samples", "budget_sequence_steps"},
